@@ -9,8 +9,10 @@ import (
 )
 
 // Issues returns a channel with gitlab project issues, ascending order.
-func Issues(ctx context.Context, client *gitlab.Client, pid string, since time.Time) <-chan *gitlab.Issue {
+// Once the channel is closed, the returned function tells if the listing stopped on an error.
+func Issues(ctx context.Context, client *gitlab.Client, pid string, since time.Time) (<-chan *gitlab.Issue, func() error) {
 	out := make(chan *gitlab.Issue)
+	var listErr error
 
 	go func() {
 		defer close(out)
@@ -24,6 +26,7 @@ func Issues(ctx context.Context, client *gitlab.Client, pid string, since time.T
 		for {
 			issues, resp, err := client.Issues.ListProjectIssues(pid, &opts, gitlab.WithContext(ctx))
 			if err != nil {
+				listErr = err
 				return
 			}
 
@@ -39,7 +42,7 @@ func Issues(ctx context.Context, client *gitlab.Client, pid string, since time.T
 		}
 	}()
 
-	return out
+	return out, func() error { return listErr }
 }
 
 // Notes returns a channel with note events
